@@ -17,11 +17,12 @@ instance (c : Cfg) : Decidable c.WF :=
   if h : 1 ≤ c.K ∧ 2 * c.K ≤ c.w ∧ (c.var = false → c.w = 2 * c.K) then isTrue ⟨h.1, h.2.1, h.2.2⟩
   else isFalse fun hc => h ⟨hc.hK, hc.hw, hc.hint⟩
 
-/-- every shipped k-mer type (18 aliases + `VarIntKmer<u64,K31>`) is a well-formed configuration with a
+/-- every k-mer type of the table (18 aliases + `VarIntKmer<u64,K31>`, `<u8,K4>` — the one `VarIntKmer` that fills its
+    storage —, `<u16,K4>`, `<u128,K31>`) is a well-formed configuration with a
     storage width for which a `reverse_by_twos` ladder exists -/
 theorem shipped_wf : ∀ e ∈ Gen.shipped, (Cfg.mk e.2.1 e.2.2.1 e.2.2.2).WF ∧ e.2.1 ∈ [8, 16, 32, 64, 128] := by decide
 
-theorem shipped_count : Gen.shipped.length = 19 := by decide
+theorem shipped_count : Gen.shipped.length = 22 := by decide
 
 /-- C10 (write a base): `set_mut` refines `List.set`, for all k-mer values, positions and bases -/
 theorem C10_set (c : Cfg) (hc : c.WF) (s : St c) (pos v : Nat) (hp : pos < c.K) (hv : v < 4) :
